@@ -28,6 +28,9 @@ var mutations = map[string]mutation{
 	// C12
 	"c12-no-count":     {"C12", "kmipclient/client.go", "if int(resp.Header.BatchCount) != len(resp.BatchItem) || len(resp.BatchItem) != len(payloads) {", "if len(resp.BatchItem) == 0 {"},
 	"c12-no-err":       {"C12", "kmipclient/client.go", "\tbi := resp[0]\n\tif err := bi.Err(); err != nil {\n\t\treturn nil, err\n\t}", "\tbi := resp[0]"},
+	// C20
+	"c20-clear-keeps-version": {"C20", "ttlv/encoder.go", "\tenc.extension.version = nil\n", ""},
+	"c20-cache-by-name":       {"C20", "ttlv/encoder.go", "if f, ok := encodeFuncsCache.Load(ty); ok {", "if f, ok := encodeFuncsCache.Load(ty.Kind()); ok && ty.Kind() == reflect.Struct {"},
 	// C13
 	"c13-fallback":     {"C13", "kmipclient/client.go", "if !slices.Contains(c.supportedVersions, kmip.V1_0) {", "if false {"},
 	"c13-first-listed": {"C13", "kmipclient/client.go", "if best == nil || ttlv.CompareVersions(v, *best) > 0 {", "if best == nil {"},
